@@ -18,7 +18,7 @@ Inductive case :=
 | FrameCase (data : string) (sched : list Z) (fin : Z * Z) (finWith : bool) (nmax : Z)
             (res : list fres) (closed : option Z) (left : Z)
 | StreamCase (data : string) (sched : list Z) (fin : Z * Z) (finWith : bool)
-             (mode : Z) (maxHdr : Z) (wfail : Z) (ops : list op)
+             (mode : Z) (nc : bool) (maxHdr : Z) (wfail : Z) (ops : list op)
              (res : list opres) (cancels : list (Z * Z)) (closed : option Z)
              (trailers : list string) (written : list string) (rem : Z) (left : Z).
 
@@ -62,7 +62,8 @@ Definition sort_pairs (l : list (Z * Z)) : list (Z * Z) := fold_right insert_pai
 
 (** ** frames unit *)
 Definition drop_payload (s : src) (l : Z) : src :=
-  mkSrc (skipn (Z.to_nat l) (s_data s)) (s_sched s) (s_fin s) (s_finWith s).
+  (* [l] comes off the wire (up to 2^62): clamp before converting to a unary number *)
+  mkSrc (skipn (Z.to_nat (Z.min l (zlen (s_data s)))) (s_data s)) (s_sched s) (s_fin s) (s_finWith s).
 
 Fixpoint parse_many (n : nat) (s : src) (cl : option Z) : list fres * src * option Z :=
   match n with
@@ -107,7 +108,7 @@ Definition rig_step (r : rig) (o : op) : (list Z * Z * (Z * Z) * bool) * rig :=
   | OWrite s =>
     let '(n, e, x') := stream_write (rig_stream r) (hx s) in
     (([], n, oerr_code e, false),
-     match r with RigStream _ => RigStream x' | RigBody b => RigBody (mkBody x' (b_rem b) (b_has b) (b_violated b) (b_cancels b)) end)
+     match r with RigStream _ => RigStream x' | RigBody b => RigBody (mkBody x' (b_rem b) (b_has b) (b_violated b) (b_cancels b) (b_nocontent b)) end)
   end.
 
 Fixpoint rig_run (r : rig) (ops : list op) : list (list Z * Z * (Z * Z) * bool) * rig :=
@@ -133,9 +134,9 @@ Definition model_obs (c : case) : obs :=
   | FrameCase data sched fin fw nmax _ _ _ =>
     let '(rs, s', cl) := parse_many (Z.to_nat nmax) (mkSrc (hx data) sched (fin_of fin) fw) None in
     FrameObs rs cl (zlen (s_data s'))
-  | StreamCase data sched fin fw mode maxHdr wfail ops _ _ _ _ _ _ _ =>
+  | StreamCase data sched fin fw mode nc maxHdr wfail ops _ _ _ _ _ _ _ =>
     let x := mkStream (mkSrc (hx data) sched (fin_of fin) fw) 0 false None [] maxHdr [] wfail in
-    let r := if mode =? (-2) then RigStream x else RigBody (new_body x mode) in
+    let r := if mode =? (-2) then RigStream x else RigBody (new_body x mode nc) in
     let '(rs, r') := rig_run r ops in
     let x' := rig_stream r' in
     StreamObs rs (rig_cancels r') (x_closed x') (x_trailers x') (x_written x') (x_rem x') (zlen (s_data (x_src x')))
@@ -145,7 +146,7 @@ Definition check_case (c : case) : bool :=
   match c, model_obs c with
   | FrameCase _ _ _ _ _ res closed lft, FrameObs res' closed' lft' =>
     list_eqb fres_eqb res' res && opt_eqb closed' closed && (lft' =? lft)
-  | StreamCase _ _ _ _ _ _ _ _ res cancels closed trailers written rem lft,
+  | StreamCase _ _ _ _ _ _ _ _ _ res cancels closed trailers written rem lft,
     StreamObs res' cancels' closed' trailers' written' rem' lft' =>
     (Nat.eqb (List.length res') (List.length res)) && forallb (fun p => opres_eqb (fst p) (snd p)) (combine res' res)
     && list_eqb pair_eqb cancels' cancels && opt_eqb closed' closed
